@@ -56,6 +56,7 @@ def translate_composite(v: dict, key: str, sf: T.Sec, st: T.Sec, res_from, res_t
 
 class C14(Check):
     PROP = "C14"
+    CRASH_ORACLE = "C14.api"
     WORLD = "X"
     RULE = ("each run = one delimited structure D and a revision D' with the same extent whose field list extends D's by 1-3 fields of "
             "any kind (primitives, arrays, strings, unions, nested sealed / delimited composites); containers nest D at every "
